@@ -87,6 +87,7 @@ async def scenario(events):
             gate[3] = raises
             gate[2].set()
 
+    early = None
     async with actor:
         await asyncio.sleep(0)
         for ev in events:
@@ -100,6 +101,12 @@ async def scenario(events):
             elif ev[0] == "yield":
                 for _ in range(ev[1]):
                     await asyncio.sleep(0)
+            elif ev[0] == "expect_entered":     # ('expect_entered', group, n-th issued request of the group, why)
+                want = issued[ev[1]][ev[2]]
+                if ("enter", ev[1], want) not in probe.log:
+                    early = (f"group {ev[1]}: request {want:.0f} W had not reached distribute_power after {ev[3]} "
+                             f"(log {probe.log}, in flight {probe.active})")
+                    break
         # drain: release everything until nothing is in flight or waiting
         for _ in range(200):
             for _ in range(5):
@@ -109,6 +116,8 @@ async def scenario(events):
             release(False)
         for _ in range(20):
             await asyncio.sleep(0)
+    if early:
+        return early
     for g in ("A", "B"):
         if probe.max_active[g] > 1:
             return f"group {g}: {probe.max_active[g]} distributions ran at the same time (log {probe.log})"
@@ -128,6 +137,29 @@ def run(req):
     budget = 10 if tier == "quick" else 90
     t0 = time.time()
     evaluations, distinct, samples, failure = 0, set(), [], None
+    # fixed schedules: disjoint groups do not wait for each other; a waiting request starts as soon as the in-flight
+    # one finishes (normally or by raising) without any further event
+    fixed = []
+    for raises in (False, True):
+        fixed.append([("req", "A"), ("yield", 5), ("expect_entered", "A", 0, "5 loop iterations with nothing in flight"),
+                      ("req", "B"), ("yield", 5),
+                      ("expect_entered", "B", 0, "5 loop iterations while only the OTHER group's distribution was in flight"),
+                      ("req", "A"), ("req", "A"), ("yield", 5), ("req", "B"), ("yield", 5), ("release", raises), ("yield", 8),
+                      ("expect_entered", "A", 2, "the in-flight distribution of its group finished and 8 loop iterations passed"),
+                      ("release", raises), ("yield", 8),
+                      ("expect_entered", "B", 1, "the in-flight distribution of its group finished and 8 loop iterations passed")])
+    for events in fixed:
+        evaluations += 1
+        distinct.add(tuple(events))
+        if not samples:
+            samples.append({"events": events})
+        try:
+            f = asyncio.run(scenario(events))
+        except Exception as e:  # pylint: disable=broad-except
+            f = f"scenario raised {type(e).__name__}: {e}"
+        if f:
+            failure = (f, {"events": events})
+            break
     while failure is None and time.time() - t0 < budget:
         n = rng.randint(3, 12)
         events = []
@@ -156,7 +188,9 @@ def run(req):
            "samples": samples, "wall_s": round(time.time() - t0, 1),
            "rule": "seeded random schedules of 3-12 events: requests for two disjoint groups, releases of the oldest in-flight "
                    "distribution (30 % of them raising), release-and-send without yielding, explicit yields of 1/2/5 loop "
-                   "iterations; distinct = distinct event sequences"}
+                   "iterations; plus 2 fixed schedules asserting that a group's request starts while only the other group is "
+                   "in flight and that a waiting request starts within 8 loop iterations of the in-flight one finishing "
+                   "(returning / raising); distinct = distinct event sequences"}
     if failure:
         out["failure"] = {"clause": "one at a time per group, latest wins, last request applied", "detail": failure[0]}
         out["inputs"] = failure[1]
